@@ -338,6 +338,7 @@ def mutate_value(rng, v, alphabet):
 
 
 ALPHABET = list('0123456789abcdefABCDEFxXgGzZ.-+:,|TZE= /') + ['é', 'Ā', '٣']
+B64ALPHA = 'ABCDEFGHIJKLMNOPQRSTUVWXYZabcdefghijklmnopqrstuvwxyz0123456789+/'
 
 
 # ---- ontology and event construction ---------------------------------------------------------------
@@ -736,7 +737,7 @@ class C03(Property):
     design_ref = 'DESIGN.md section 10, C03'
     required_theorems = (
         'acceptsInt_iff', 'unsigned_pattern_iff', 'signed_pattern_iff', 'accepts_boolean_iff', 'accepts_enum_iff',
-        'accepts_hex_iff', 'accepts_hex_grouped_iff', 'hexTail_iff', 'octet_iff', 'accepts_ipv4_iff', 'accepts_ipv6_iff', 'accepts_uuid_iff', 'gate_iff', 'propOk_iff', 'cardOk_iff',
+        'accepts_hex_iff', 'accepts_hex_grouped_iff', 'hexTail_iff', 'octet_iff', 'accepts_ipv4_iff', 'accepts_ipv6_iff', 'accepts_uuid_iff', 'accepts_base64_iff', 'gate_iff', 'propOk_iff', 'cardOk_iff',
         'attOk_iff', 'validator_history_independent', 'validator_eq_fresh', 'cache_never_consulted', 'runHist_eq_spec',
     )
     level_text = ('Lean 4 theorems over the model of the gate (the value space recognisers generated by '
@@ -785,6 +786,32 @@ class C03(Property):
                 for i in range(0, len(vals), size):
                     yield {'kind': 'value', 'dt': dt, 'regex': rx, 'values': vals[i:i + size],
                            'full': (i == 0 and rx is None) or not quick}
+        # base64: the model's codec against the standard one, and canonical / non-canonical notations against the real gate
+        for i in range(6 if quick else 120):
+            m = rng.choice([0, 0, 1, 3, 4, 7])
+            bs = [[rng.randrange(256) for _ in range(rng.choice([1, 2, 3, 4, 5, 6, 7, 8, 9, 30]))] for _ in range(8)]
+            import base64 as _b64
+            strings = []
+            for b in bs:
+                enc = _b64.b64encode(bytes(b)).decode()
+                strings.append(enc)
+                how = rng.randrange(6)
+                if how == 0:
+                    strings.append(enc.rstrip('='))                       # padding left out
+                elif how == 1:
+                    strings.append(enc + '=')                             # one padding character too many
+                elif how == 2:
+                    body = enc.rstrip('=')
+                    k = B64ALPHA.index(body[-1])
+                    strings.append(body[:-1] + B64ALPHA[(k + 1) % 64] + enc[len(body):])   # other low bits in the last symbol
+                elif how == 3:
+                    j = rng.randrange(len(enc))
+                    strings.append(enc[:j] + rng.choice([' ', '\n', '-', '_', '*']) + enc[j:])
+                elif how == 4:
+                    strings.append(enc[:4] + enc)                          # longer
+                else:
+                    strings.append(enc[:-4] if len(enc) > 4 else '====')
+            yield {'kind': 'b64codec', 'max': m, 'bytes': bs, 'strings': [x for x in strings if in_domain('base64:%d' % m, x)]}
         n = 150 if quick else 3000
         for i in range(n):
             et = gen_event_type(rng)
@@ -923,6 +950,21 @@ class C03(Property):
 
     # -- observation
     def observe(self, case):
+        if case['kind'] == 'b64codec':
+            import base64
+            dt = 'base64:%d' % case['max']
+            verdicts = self.observe({'kind': 'value', 'dt': dt, 'regex': None, 'values': case['strings'], 'full': False})['verdicts']
+            dec = []
+            for x, ok in zip(case['strings'], verdicts):
+                try:
+                    # what the SDK itself decodes accepted values with
+                    dec.append(list(base64.decodebytes(x.encode())) if ok else None)
+                except Exception as ex:
+                    dec.append('err:' + type(ex).__name__)
+            # the decoding is only asked of values the type without a length limit accepts
+            free = self.observe({'kind': 'value', 'dt': 'base64:0', 'regex': None, 'values': case['strings'], 'full': False})['verdicts']
+            return {'enc': [base64.b64encode(bytes(b)).decode() for b in case['bytes']], 'accepted': verdicts,
+                    'dec': [list(base64.decodebytes(x.encode())) if ok else None for x, ok in zip(case['strings'], free)]}
         if case['kind'] == 'value':
             et = {'props': [{'name': 'p', 'dt': case['dt'], 'regex': case['regex'], 'optional': False, 'multivalued': False}]}
             o = build_ontology(et)
@@ -954,6 +996,8 @@ class C03(Property):
 
     # -- model
     def requests(self, case):
+        if case['kind'] == 'b64codec':
+            return [{'op': 'b64', 'bytes': case['bytes'], 'strings': case['strings'], 'maxLen': case['max']}]
         if case['kind'] == 'value':
             et = {'props': [{'name': 'p', 'dt': case['dt'], 'regex': case['regex'], 'optional': False, 'multivalued': False}]}
             hist = [{'k': 'define', 'name': 't', 'et': model_et(et)}]
@@ -971,6 +1015,9 @@ class C03(Property):
         return [{'op': 'gate', 'hist': ops}]
 
     def predict(self, case, replies):
+        if case['kind'] == 'b64codec':
+            r = replies[0]
+            return {'enc': r['enc'], 'accepted': r['accepted'], 'dec': r['dec']}
         if case['kind'] == 'value':
             return {'verdicts': replies[0]['verdicts'], 'dissent': []}
         if case['kind'] == 'struct':
@@ -981,6 +1028,19 @@ class C03(Property):
 
     # -- independent oracle
     def oracle(self, case, obs):
+        if case['kind'] == 'b64codec':
+            import base64
+            import binascii
+            for x, got in zip(case['strings'], obs['accepted']):
+                try:
+                    raw = base64.b64decode(x.encode('ascii'), validate=True)
+                    want = len(raw) >= 1 and base64.b64encode(raw).decode() == x and (case['max'] == 0 or len(raw) <= case['max'])
+                except (binascii.Error, ValueError, UnicodeEncodeError):
+                    want = False
+                if got != want:
+                    return 'base64:%d, value %r: the gate %s it, but it %s the canonical notation of 1..%s octets' % (
+                        case['max'], x, 'accepts' if got else 'rejects', 'is' if want else 'is not', case['max'] or 'any number of')
+            return None
         if case['kind'] == 'value':
             if obs['dissent']:
                 v, diss = obs['dissent'][0]
@@ -1015,6 +1075,8 @@ class C03(Property):
         return None
 
     def neighbours(self, case, rng):
+        if case['kind'] == 'b64codec':
+            return []
         if case['kind'] == 'value':
             vals = []
             for v in case['values']:
@@ -1026,6 +1088,11 @@ class C03(Property):
         return [dict(case, seed=rng.randint(0, 10 ** 6), fault=f) for f in FAULTS]
 
     def reductions(self, case):
+        if case['kind'] == 'b64codec':
+            for i in range(len(case['strings'])):
+                if len(case['strings']) > 1:
+                    yield dict(case, strings=case['strings'][:i] + case['strings'][i + 1:])
+            return
         if case['kind'] == 'value':
             vs = case['values']
             if len(vs) > 1:
@@ -1040,7 +1107,7 @@ class C03(Property):
                 yield dict(case, length=n)
 
     def nontrivial_obs(self, case, obs):
-        vs = obs.get('verdicts') if isinstance(obs, dict) else None
+        vs = obs.get('verdicts', obs.get('accepted')) if isinstance(obs, dict) else None
         if vs is None:
             vs = [obs.get('verdict')] if isinstance(obs, dict) else []
         flat = [v for v in vs if isinstance(v, bool)]
